@@ -429,6 +429,21 @@ def compare_call(S, scn, ci, c, m):
                 cf("randset[%d].swizzle-candidates" % k, mod_groups, impl_groups)
             if b["rs"]["order"] != a.get("order"):
                 cf("randset[%d].order-groups" % k, a.get("order"), b["rs"]["order"])
+            # Spec, on the groups the implementation actually walks: 'the values of a are chosen first'
+            og = b["rs"]["order"]
+            if og is not None:
+                pos = {f: gi for gi, g in enumerate(og) for f in g}
+                sos = [s for blk in scn["blocks"] for s in blk["stmts"] if s["k"] == "solve_order"]
+                for s_ in sos:
+                    for x in s_["before"]:
+                        for y in s_["after"]:
+                            nx, ny = names[x], names[y]
+                            if nx in pos and ny in pos and not pos[nx] < pos[ny]:
+                                of("solve-order-before-not-first", {"before": nx, "after": ny, "groups": og},
+                                   "the group of the 'before' field is randomized before the group of the 'after' field")
+                missing = [f for f in b["rs"]["fields"] if f not in pos]
+                if missing:
+                    of("field-in-no-ordered-group", {"fields": missing, "groups": og}, "every field of the rand set is randomized")
             st["swizzle_candidates"] = st.get("swizzle_candidates", 0) + sum(len(g) for g in impl_groups)
         if c["outcome"] == "ok":
             if not m["drawsOkAll"] or m["drawsLeft"] != 0:
